@@ -31,6 +31,7 @@ const INDEPENDENT: &[&str] = &[
     "x := mut any 0; x = \"s\"; x = [1]; y := match *x { 1 => 10, a: [int] => 20, => 30, }; (std.convert.to_string(x), y)",
     "a := [true, true, false]~ $&&; b := [false, true]~ $||; c := [12, 10]~ $&; d := [1, 2, 4]~ $|; (a, b, c, d)",
     "f := (n: int) -> int { r := mut 0; k := mut 0; loop { k += 1; if *k > n { break }; w := mut *k; w *= 2; r += *w }; return *r }; (f(2), f(3))",
+    "walk := (n: int, a: int, b: int, c: int) -> int { if n < 1 return a + b + c; d := a + 1; e := b + 2; f := c + 3; g := d + e + f; return walk(n - 1, d, e, f) + g - g; }; (walk(4, 1, 1, 1), walk(2, 0, 0, 0))",
     "v := 6; r := match v { 5, 7 => 1, 6 => 2, => 3, }; s := match \"k\" { \"j\", \"k\" => 10, t: string => 20, }; (r, s)",
 ];
 
